@@ -254,164 +254,110 @@ impl Ctx {
     /// Run a proptest campaign. `prop` is a pure function of the case.
     /// Failures whose signature is a known open finding are tolerated (counted) and the campaign
     /// continues; the first other failure is shrunk (keeping its signature) and reported.
-    pub fn campaign<S, F, G>(
-        &mut self,
-        name: &str,
-        cases: u32,
-        strategy: S,
-        prop: F,
-        to_json: G,
-    ) where
+    pub fn campaign<S, F, G>(&mut self, name: &str, cases: u32, strategy: S, prop: F, to_json: G)
+    where
         S: Strategy,
         S::Value: Hash + Clone + std::fmt::Debug,
         F: Fn(&S::Value, &mut CaseLog) -> Verdict,
         G: Fn(&S::Value) -> Value,
     {
-        let t0 = Instant::now();
-        let mut seed_bytes = [0u8; 32];
-        let salt = hash_of(&(self.id.as_str(), name));
-        seed_bytes[..8].copy_from_slice(&self.seed.to_le_bytes());
-        seed_bytes[8..16].copy_from_slice(&salt.to_le_bytes());
-        let rng = TestRng::from_seed(RngAlgorithm::ChaCha, &seed_bytes);
-        let mut config = Config::default();
-        config.cases = cases;
-        config.failure_persistence = None;
-        config.max_shrink_iters = 3000;
-        config.max_global_rejects = cases.saturating_mul(4).max(1024);
-        config.verbose = 0;
-        config.source_file = None;
-        let mut runner = TestRunner::new_with_rng(config, rng);
+        let known = self.known_open_sigs();
+        let want = self.max_samples.saturating_sub(self.samples.len()).min(3);
+        let out = run_campaign(&self.id, self.seed, name, 0, &known, cases, strategy, &prop, &to_json, want);
+        self.absorb(name, cases, vec![out]);
+    }
 
-        struct St {
-            counting: bool,
-            first_sig: Option<String>,
-            evaluations: u64,
-            discarded: u64,
-            labels: BTreeMap<String, u64>,
-            distinct: HashSet<u64>,
-            known_hits: BTreeMap<String, (u64, Value)>,
-            samples: Vec<Value>,
-            last_fail: Option<(String, String)>,
-        }
-        let st = RefCell::new(St {
-            counting: true,
-            first_sig: None,
-            evaluations: 0,
-            discarded: 0,
-            labels: BTreeMap::new(),
-            distinct: HashSet::new(),
-            known_hits: BTreeMap::new(),
-            samples: vec![],
-            last_fail: None,
-        });
+    /// The same campaign split over `threads` independent runners (own seed stream each).
+    pub fn campaign_parallel<S, SF, F, G>(&mut self, name: &str, cases: u32, threads: usize, make_strategy: SF, prop: F, to_json: G)
+    where
+        S: Strategy,
+        S::Value: Hash + Clone + std::fmt::Debug,
+        SF: Fn() -> S + Sync,
+        F: Fn(&S::Value, &mut CaseLog) -> Verdict + Sync,
+        G: Fn(&S::Value) -> Value + Sync,
+    {
+        let known = self.known_open_sigs();
+        let want = self.max_samples.saturating_sub(self.samples.len()).min(3);
+        let threads = threads.max(1);
+        let per = (cases + threads as u32 - 1) / threads as u32;
         let id = self.id.clone();
-        let known: Vec<String> = self
-            .known
-            .iter()
-            .filter(|k| k.status == "open")
-            .map(|k| k.signature.clone())
-            .collect();
-        let want_samples = self.max_samples.saturating_sub(self.samples.len()).min(3);
-
-        let result = runner.run(&strategy, |case| {
-            let mut log = CaseLog::default();
-            let verdict = prop(&case, &mut log);
-            let mut s = st.borrow_mut();
-            if s.counting {
-                match &verdict {
-                    Verdict::Discard(_) => s.discarded += 1,
-                    _ => {
-                        s.evaluations += 1;
-                        for l in &log.labels {
-                            *s.labels.entry(l.clone()).or_insert(0) += 1;
-                        }
-                        if log.nontrivial {
-                            let h = hash_of(&case);
-                            if s.distinct.insert(h) && s.samples.len() < want_samples {
-                                s.samples.push(to_json(&case));
-                            }
-                        }
-                    }
-                }
+        let seed = self.seed;
+        let mut outs = vec![];
+        std::thread::scope(|sc| {
+            let mut hs = vec![];
+            for t in 0..threads {
+                let known = &known;
+                let id = &id;
+                let make_strategy = &make_strategy;
+                let prop = &prop;
+                let to_json = &to_json;
+                hs.push(sc.spawn(move || {
+                    run_campaign(id, seed, name, t as u64 + 1, known, per, make_strategy(), prop, to_json, if t == 0 { want } else { 0 })
+                }));
             }
-            match verdict {
-                Verdict::Pass => Ok(()),
-                Verdict::Discard(why) => Err(TestCaseError::reject(why)),
-                Verdict::Fail { kind, detail } => {
-                    let sig = format!("{}|{}", id, kind);
-                    if known.contains(&sig) {
-                        if s.counting {
-                            let e = s
-                                .known_hits
-                                .entry(sig.clone())
-                                .or_insert_with(|| (0, to_json(&case)));
-                            e.0 += 1;
-                        }
-                        // a known finding while shrinking another failure is not that failure
-                        return Ok(());
-                    }
-                    match &s.first_sig {
-                        None => {
-                            s.first_sig = Some(sig.clone());
-                            s.counting = false;
-                            s.last_fail = Some((sig.clone(), detail.clone()));
-                            Err(TestCaseError::fail(sig))
-                        }
-                        Some(f) if *f == sig => {
-                            s.last_fail = Some((sig.clone(), detail.clone()));
-                            Err(TestCaseError::fail(sig))
-                        }
-                        Some(_) => Ok(()),
-                    }
+            for h in hs {
+                match h.join() {
+                    Ok(o) => outs.push(o),
+                    Err(_) => {}
                 }
             }
         });
+        if outs.len() != threads {
+            self.health_problems.push(format!("campaign {}: a runner thread panicked", name));
+        }
+        self.absorb(name, cases, outs);
+    }
 
-        let s = st.into_inner();
-        self.evaluations += s.evaluations;
-        self.discarded += s.discarded;
-        for (k, v) in &s.labels {
-            *self.labels.entry(k.clone()).or_insert(0) += v;
-        }
-        for h in &s.distinct {
-            self.distinct_nontrivial.insert(*h);
-        }
-        for v in s.samples {
-            self.sample(v);
-        }
+    fn known_open_sigs(&self) -> Vec<String> {
+        self.known.iter().filter(|k| k.status == "open").map(|k| k.signature.clone()).collect()
+    }
+
+    fn absorb(&mut self, name: &str, cases: u32, outs: Vec<CampaignOutcome>) {
+        let mut evaluated = 0;
+        let mut discarded = 0;
+        let mut distinct = 0;
         let mut known_json = vec![];
-        for (sig, (n, example)) in &s.known_hits {
-            known_json.push(json!({"signature": sig, "hits": n}));
-            self.report_failure(sig, "", example.clone());
+        let mut outcomes = vec![];
+        let mut wall: f64 = 0.0;
+        for o in outs {
+            evaluated += o.evaluations;
+            discarded += o.discarded;
+            distinct += o.distinct.len();
+            self.evaluations += o.evaluations;
+            self.discarded += o.discarded;
+            self.inconclusive += o.labels.get("inconclusive").copied().unwrap_or(0);
+            for (k, v) in &o.labels {
+                *self.labels.entry(k.clone()).or_insert(0) += v;
+            }
+            for h in &o.distinct {
+                self.distinct_nontrivial.insert(*h);
+            }
+            for v in o.samples {
+                self.sample(v);
+            }
+            for (sig, (n, example)) in &o.known_hits {
+                known_json.push(json!({"signature": sig, "hits": n}));
+                self.report_failure(sig, "", example.clone());
+            }
+            if let Some((sig, detail, case)) = o.failure {
+                outcomes.push(format!("fail:{}", sig));
+                let detail = format!("campaign {}\n{}", name, detail);
+                self.report_failure(&sig, &detail, case);
+            }
+            if let Some(reason) = o.aborted {
+                outcomes.push(format!("abort:{}", reason));
+                self.health_problems.push(format!("campaign {} aborted: {}", name, reason));
+            }
+            wall = wall.max(o.wall_s);
         }
-        let mut outcome = "pass".to_string();
-        match result {
-            Ok(()) => {}
-            Err(TestError::Fail(_reason, minimal)) => {
-                // recompute the verdict on the minimal case for a faithful detail text
-                let mut log = CaseLog::default();
-                let (sig, detail) = match prop(&minimal, &mut log) {
-                    Verdict::Fail { kind, detail } => (format!("{}|{}", self.id, kind), detail),
-                    _ => s
-                        .last_fail
-                        .clone()
-                        .unwrap_or(("?".to_string(), "?".to_string())),
-                };
-                outcome = format!("fail:{}", sig);
-                let detail = format!("campaign {}\ncase: {:?}\n{}", name, minimal, detail);
-                self.report_failure(&sig, &detail, to_json(&minimal));
-            }
-            Err(TestError::Abort(reason)) => {
-                outcome = format!("abort:{}", reason);
-                self.health_problems
-                    .push(format!("campaign {} aborted: {}", name, reason));
-            }
+        if outcomes.is_empty() {
+            outcomes.push("pass".into());
         }
         self.campaigns.push(json!({
-            "name": name, "cases_requested": cases, "evaluated": s.evaluations,
-            "discarded": s.discarded, "distinct_nontrivial": s.distinct.len(),
-            "known_findings_hit": known_json, "outcome": outcome,
-            "wall_s": t0.elapsed().as_secs_f64(),
+            "name": name, "cases_requested": cases, "evaluated": evaluated,
+            "discarded": discarded, "distinct_nontrivial": distinct,
+            "known_findings_hit": known_json, "outcome": outcomes,
+            "wall_s": wall,
         }));
     }
 
@@ -514,6 +460,165 @@ impl Ctx {
         }
         0
     }
+}
+
+pub struct CampaignOutcome {
+    pub evaluations: u64,
+    pub discarded: u64,
+    pub labels: BTreeMap<String, u64>,
+    pub distinct: HashSet<u64>,
+    pub known_hits: BTreeMap<String, (u64, Value)>,
+    pub samples: Vec<Value>,
+    /// (signature, detail, replay case)
+    pub failure: Option<(String, String, Value)>,
+    pub aborted: Option<String>,
+    pub wall_s: f64,
+}
+
+#[allow(clippy::too_many_arguments)]
+pub fn run_campaign<S, F, G>(
+    id: &str,
+    seed: u64,
+    name: &str,
+    stream: u64,
+    known: &[String],
+    cases: u32,
+    strategy: S,
+    prop: &F,
+    to_json: &G,
+    want_samples: usize,
+) -> CampaignOutcome
+where
+    S: Strategy,
+    S::Value: Hash + Clone + std::fmt::Debug,
+    F: Fn(&S::Value, &mut CaseLog) -> Verdict,
+    G: Fn(&S::Value) -> Value,
+{
+    let t0 = Instant::now();
+    let mut seed_bytes = [0u8; 32];
+    let salt = hash_of(&(id, name));
+    seed_bytes[..8].copy_from_slice(&seed.to_le_bytes());
+    seed_bytes[8..16].copy_from_slice(&salt.to_le_bytes());
+    seed_bytes[16..24].copy_from_slice(&stream.to_le_bytes());
+    let rng = TestRng::from_seed(RngAlgorithm::ChaCha, &seed_bytes);
+    let mut config = Config::default();
+    config.cases = cases;
+    config.failure_persistence = None;
+    config.max_shrink_iters = 2000;
+    config.max_global_rejects = cases.saturating_mul(4).max(1024);
+    config.verbose = 0;
+    config.source_file = None;
+    let mut runner = TestRunner::new_with_rng(config, rng);
+
+    struct St {
+        counting: bool,
+        first_sig: Option<String>,
+        evaluations: u64,
+        discarded: u64,
+        labels: BTreeMap<String, u64>,
+        distinct: HashSet<u64>,
+        known_hits: BTreeMap<String, (u64, Value)>,
+        samples: Vec<Value>,
+        last_fail: Option<(String, String)>,
+    }
+    let st = RefCell::new(St {
+        counting: true,
+        first_sig: None,
+        evaluations: 0,
+        discarded: 0,
+        labels: BTreeMap::new(),
+        distinct: HashSet::new(),
+        known_hits: BTreeMap::new(),
+        samples: vec![],
+        last_fail: None,
+    });
+
+    let result = runner.run(&strategy, |case| {
+        let mut log = CaseLog::default();
+        let verdict = prop(&case, &mut log);
+        let mut s = st.borrow_mut();
+        if s.counting {
+            match &verdict {
+                Verdict::Discard(_) => s.discarded += 1,
+                _ => {
+                    s.evaluations += 1;
+                    for l in &log.labels {
+                        *s.labels.entry(l.clone()).or_insert(0) += 1;
+                    }
+                    if log.nontrivial {
+                        let h = hash_of(&case);
+                        if s.distinct.insert(h) && s.samples.len() < want_samples {
+                            s.samples.push(to_json(&case));
+                        }
+                    }
+                }
+            }
+        }
+        match verdict {
+            Verdict::Pass => Ok(()),
+            Verdict::Discard(why) => Err(TestCaseError::reject(why)),
+            Verdict::Fail { kind, detail } => {
+                let sig = format!("{}|{}", id, kind);
+                if known.contains(&sig) {
+                    if s.counting {
+                        let e = s.known_hits.entry(sig.clone()).or_insert_with(|| (0, to_json(&case)));
+                        e.0 += 1;
+                    }
+                    // a known finding while shrinking another failure is not that failure
+                    return Ok(());
+                }
+                match &s.first_sig {
+                    None => {
+                        s.first_sig = Some(sig.clone());
+                        s.counting = false;
+                        s.last_fail = Some((sig.clone(), detail.clone()));
+                        Err(TestCaseError::fail(sig))
+                    }
+                    Some(f) if *f == sig => {
+                        s.last_fail = Some((sig.clone(), detail.clone()));
+                        Err(TestCaseError::fail(sig))
+                    }
+                    Some(_) => Ok(()),
+                }
+            }
+        }
+    });
+
+    let s = st.into_inner();
+    let mut out = CampaignOutcome {
+        evaluations: s.evaluations,
+        discarded: s.discarded,
+        labels: s.labels,
+        distinct: s.distinct,
+        known_hits: s.known_hits,
+        samples: s.samples,
+        failure: None,
+        aborted: None,
+        wall_s: 0.0,
+    };
+    match result {
+        Ok(()) => {}
+        Err(TestError::Fail(_reason, minimal)) => {
+            // recompute the verdict on the minimal case for a faithful detail text
+            let mut log = CaseLog::default();
+            let (sig, detail) = match prop(&minimal, &mut log) {
+                Verdict::Fail { kind, detail } => (format!("{}|{}", id, kind), detail),
+                _ => s.last_fail.clone().unwrap_or(("?".to_string(), "?".to_string())),
+            };
+            let mut case_dbg = format!("{:?}", minimal);
+            if case_dbg.len() > 1500 {
+                case_dbg.truncate(1500);
+                case_dbg.push_str("...");
+            }
+            let detail = format!("case: {}\n{}", case_dbg, detail);
+            out.failure = Some((sig, detail, to_json(&minimal)));
+        }
+        Err(TestError::Abort(reason)) => {
+            out.aborted = Some(reason.to_string());
+        }
+    }
+    out.wall_s = t0.elapsed().as_secs_f64();
+    out
 }
 
 /// Build a strategy value from a seed without a runner (for enumerations that want random picks).
